@@ -79,7 +79,7 @@ Theorem C01_step_link : forall (s : fsys) (sv : sview) (co w : list str) (cl : s
 Proof. exact step_link. Qed.
 
 Theorem C01_step_chown : forall (s : fsys) (sv : sview) (slm : slmode) (cs : list str) (uid gid : Z),
-  step_hyps s sv -> path_ok s sv slm cs -> no_setid s sv (follow_of slm) cs ->
+  step_hyps s sv -> path_ok s sv slm cs ->
   (fst (chown_gen slm s (sv_view sv) (abs_path cs) uid gid),
    proj_res Linux (snd (chown_gen slm s (sv_view sv) (abs_path cs) uid gid)))
   = k_chown (follow_of slm) s sv (abs_path cs) uid gid.
